@@ -375,7 +375,7 @@ func (a *cbpAnchors) more() *cbpMore {
 		m.errs = append(m.errs, "shard struct not found")
 		return m
 	}
-	st := a.shard.Underlying().(*types.Struct)
+	st := core.FlatStruct(a.shard)
 	for i := 0; i < st.NumFields(); i++ {
 		f := st.Field(i)
 		if el := chanElem(f.Type()); el != nil {
